@@ -51,6 +51,8 @@ def check(run):
     from ..rules.common import dataflow, emit
     R = dataflow(P, run.tier)
     emit(run, R, {"UNIT/deg->trig", "UNIT/double-conversion"}, files=["uxarray/grid/geometry.py", "uxarray/grid/utils.py", "uxarray/grid/arcs.py"])
+    from ..rules import sqtol
+    sqtol.check(run, P, ("uxarray/grid/geometry.py", "uxarray/grid/arcs.py", "uxarray/grid/intersections.py", "uxarray/grid/utils.py", "uxarray/grid/coordinates.py"))
     _edge_extremes(run, P)
     _box_growth(run, P)
     _extreme(run, P)
